@@ -134,7 +134,9 @@ func corrC07(out string, seed uint64, tier string, replay string) *report {
 			}
 			return ""
 		}()) + ")"
-		cs1.add(term, map[string]interface{}{"hash": h, "observed_prefix": obs})
+		if len(h) <= 300 { // longer strings: direct oracle only (a list literal of thousands of bytes overflows coqc's stack)
+			cs1.add(term, map[string]interface{}{"hash": h, "observed_prefix": obs})
+		}
 		rep.count("p:"+h, strings.ContainsAny(h, "$_,"))
 		if len(h) > 2 {
 			rep.sample(map[string]interface{}{"kind": "prefix", "hash": h, "observed_prefix": obs})
@@ -145,6 +147,12 @@ func corrC07(out string, seed uint64, tier string, replay string) *report {
 	for _, d := range documented {
 		for _, tail := range []string{"", "x", "x$y", "$", ",", "_", "a,b$c"} {
 			probe(d+tail, false)
+		}
+	}
+	// long hashes: whatever the length, the dispatcher looks at the prefix only
+	for _, d := range documented {
+		for _, n := range []int{64, 119, 120, 121, 127, 128, 129, 255, 256, 257, 1000, 4096, 65536} {
+			probe(d+r.str(n, "ab./09$=,"), false)
 		}
 	}
 	nr := 300
